@@ -182,6 +182,20 @@ def run(ctx):
         good = any(mentions(a, lambda s: s[0] == "updated" and any(val == ("const", "u8", 2) for _, val in s[2]))
                    for (bb, t, ci) in f.calls() if ci and ci.get("name") == "deserialize" for a in v.call_args(bb))
         ctx.check(good, "PROV", f.key, "x-only-R-decoded-with-even-tag", "Taproot signatures must decode R with the even-y tag 0x02", f.loc)
+    for key in (CORE + "signature::Signature::<C>::default_deserialize",
+                "<frost_secp256k1_tr::Secp256K1Sha256TR as frost_core::traits::Ciphersuite>::deserialize_signature"):
+        f = P.fns.get(key)
+        if f and f.has_body:
+            v = FnView.get(P, f)
+            oks = [v.cx.operand(rv["ops"][0]) for (b, k, rv) in ret_writes(f) if k == "ok"]
+            good = len(oks) == 1
+            if good:
+                R, z = get_field(oks[0], "R"), get_field(oks[0], "z")
+                dec = lambda t, tr: t[0] == "ok" and is_call(t[1], name="deserialize") and (t[1][1].endswith("::" + tr + "::deserialize")) and mentions(t[1], arg(1))
+                good = dec(R, "Group") and dec(z, "Field")
+            ctx.check(good, "PROV", key, "R-and-z-through-checked-decoders",
+                      "a decoded signature's R and z must be the results of Group::deserialize / Field::deserialize of the "
+                      "input bytes (out-of-range scalars and invalid points rejected, nothing reduced)", f.loc)
     f = ctx.anchor(CORE + "keys::VerifiableSecretSharingCommitment::<C>::deserialize_whole")
     if f:
         refusal(ctx, f, "SEP", "G49:no-remainder",
